@@ -154,12 +154,16 @@ def find_peaks(data, threshold, *, box_size=3, footprint=None, mask=None,
         data = np.copy(data)  # ndarray
         data[nan_mask] = nanmin(data)
 
+    # Pad with the image minimum so that pixels beyond the image edges
+    # can never be the maximum of a local region. (Padding with zero hid
+    # negative peaks whose local region extends beyond the image.)
+    cval = np.min(data)
     if footprint is not None:
         data_max = maximum_filter(data, footprint=footprint, mode='constant',
-                                  cval=0.0)
+                                  cval=cval)
     else:
         data_max = maximum_filter(data, size=box_size, mode='constant',
-                                  cval=0.0)
+                                  cval=cval)
 
     peak_goodmask = (data == data_max)  # good pixels are True
 
